@@ -1,5 +1,5 @@
 (* C08 correspondence: cases as printed by harness/c08. *)
-From Verif Require Export Lib.Base Model.C08_Submitter.
+From Verif Require Export Lib.Base Model.C08_Submitter Model.C08_Spec.
 
 (* what the harness saw one Submit<Kind> call do (fake milliseconds since the call) *)
 Record sub_obs := {
@@ -32,13 +32,12 @@ Fixpoint forall2b {A B} (f : A -> B -> bool) (l1 : list A) (l2 : list B) : bool 
   | _, _ => false
   end.
 
-Definition is_nil {A} (l : list A) : bool := match l with [] => true | _ => false end.
-
 Definition bool_eqb (a b : bool) : bool := if a then b else negb b.
 Definition zpair_eqb := prod_eqb Z.eqb Z.eqb.
 
 Definition is_perm (order : list nat) (n : nat) : bool :=
-  Nat.eqb (length order) n && forallb (fun i => existsb (Nat.eqb i) order) (seq 0 n).
+  Nat.eqb (length order) n && forallb (fun i => existsb (Nat.eqb i) order) (seq 0 n)
+  && forallb (fun j => Nat.ltb j n) order.
 
 (* ------------------------------------------------------------------------------------------- *)
 (* agree: the model, run on the case's input and observed start order, admits what was observed *)
@@ -72,55 +71,6 @@ Definition agree (c : case) : bool :=
 
 (* ------------------------------------------------------------------------------------------- *)
 (* P_b: the property itself on the input and the OBSERVED behaviour; the model is not consulted. *)
-
-(* The documented table: which rejection messages vouch tolerates, for which submission, from
-   which client (already known / node behind the head). *)
-Definition kind_eqb (a b : kind) : bool :=
-  match a, b with
-  | KAttestations, KAttestations | KProposal, KProposal | KAggregates, KAggregates
-  | KSyncMessages, KSyncMessages | KSyncContributions, KSyncContributions
-  | KBeaconSubs, KBeaconSubs | KSyncSubs, KSyncSubs | KProposalPreps, KProposalPreps => true
-  | _, _ => false
-  end.
-Definition client_eqb (a b : client) : bool :=
-  match a, b with
-  | Lighthouse, Lighthouse | Lodestar, Lodestar | Prysm, Prysm | Teku, Teku | Nimbus, Nimbus
-  | Unknown, Unknown => true
-  | _, _ => false
-  end.
-
-Definition spec_table : list (kind * client * phrase) :=
-  [ (KAttestations, Lighthouse, PhPriorAtt);          (* already known *)
-    (KAttestations, Lighthouse, PhUnknownHead);       (* node behind the head *)
-    (KAttestations, Nimbus, PhUnknownTarget);         (* node behind the head *)
-    (KSyncMessages, Lighthouse, PhPriorSyncMsg);      (* already known *)
-    (KSyncMessages, Teku, PhTekuDupSync);             (* already known *)
-    (KSyncContributions, Lighthouse, PhAggKnown) ].   (* already known *)
-
-Definition spec_tol_phrase (k : kind) (c : client) (p : phrase) : bool :=
-  existsb (fun t => kind_eqb k (fst (fst t)) && client_eqb c (snd (fst t)) && phrase_eqb p (snd t)) spec_table.
-
-(* "rejected it ONLY for a reason vouch tolerates": the node named at least one reason, every
-   reason is in the table, and (sync kinds) the body is one vouch can read. *)
-Definition spec_all_tol (k : kind) (c : client) (entries : list (option phrase)) : bool :=
-  negb (is_nil entries)
-  && forallb (fun f => match f with Some p => spec_tol_phrase k c p | None => false end) entries.
-
-Definition spec_tolerated (k : kind) (c : client) (e : err_desc) : bool :=
-  match k with
-  | KAttestations =>
-      match e_shape e with
-      | ShNoFailures | ShNullFailures => false
-      | ShPlain => spec_all_tol k c (map Some (somes (e_entries e)))   (* nulls are not rendered in plain text *)
-      | _ => spec_all_tol k c (e_entries e)
-      end
-  | KSyncMessages | KSyncContributions =>
-      match e_shape e with
-      | ShFailures => spec_all_tol k c (e_entries e)
-      | _ => false
-      end
-  | _ => false
-  end.
 
 (* the scripted behaviour of the call that carried these item ids (same rule as the mock) *)
 Definition obs_call_beh (nd : node) (ids : list N) : beh :=
